@@ -552,8 +552,140 @@ pub fn run(params: &Params) {
   if ctx::choose(4) == 0 {
     alias_scenario(&issuer_core(&issuer.doc), &services[0], &mut next_seq);
   }
+  // ---- the same status entry on a credential issued as a JPT (BBS+) and validated by the JPT validator ----
+  if ctx::choose(8) == 0 {
+    jpt_twin_scenario(&issuer_core(&issuer.doc), &services[0], &model[&services[0]]);
+  }
   if nontrivial {
     ctx::mark_nontrivial();
+  }
+}
+
+/// A credential whose `RevocationBitmap2022` (or `RevocationTimeframe2024`) status entry points at the issuer's service,
+/// issued as a JSON Proof Token with a BBS+ method of the issuer and validated with `JptCredentialValidator::validate`
+/// under `StatusCheck::Strict` (the documented default of its options): reported revoked exactly when the index is a
+/// member.
+fn jpt_twin_scenario(core: &CoreDocument, sid: &str, model: &BTreeSet<u32>) {
+  use identity_credential::credential::CredentialBuilder;
+  use identity_credential::credential::JwpCredentialOptions;
+  use identity_credential::credential::RevocationBitmapStatus;
+  use identity_credential::credential::Status;
+  use identity_credential::credential::Subject;
+  use identity_credential::revocation::RevocationTimeframeStatus;
+  use identity_credential::validator::JptCredentialValidationOptions;
+  use identity_credential::validator::JptCredentialValidator;
+  use identity_credential::validator::StatusCheck;
+  use identity_did::DID;
+  use identity_storage::JwkMemStore;
+  use identity_storage::JwpDocumentExt;
+  use identity_storage::KeyIdMemstore;
+  use identity_storage::Storage;
+  use identity_verification::MethodScope;
+  use jsonprooftoken::jpa::algs::ProofAlgorithm;
+
+  let Ok(service_url) = DIDUrl::parse(sid) else { return };
+  let mut doc = core.clone();
+  let storage: Storage<JwkMemStore, KeyIdMemstore> = Storage::new(JwkMemStore::new(), KeyIdMemstore::new());
+  let Ok(fragment) = block_on(doc.generate_method_jwp(
+    &storage,
+    JwkMemStore::BLS12381G2_KEY_TYPE,
+    ProofAlgorithm::BLS12381_SHA256,
+    None,
+    MethodScope::VerificationMethod,
+  )) else {
+    ctx::stat("observation.jpt_twin_no_bbs_method");
+    return;
+  };
+  // a member (if there is one) or a non-member
+  let member = !model.is_empty() && ctx::choose(2) == 0;
+  let index: u32 = if member {
+    *model.iter().nth(ctx::choose(model.len().min(64))).expect("non-empty")
+  } else {
+    let mut i = 11_000_000 + ctx::choose(1000) as u32;
+    while model.contains(&i) {
+      i += 1;
+    }
+    i
+  };
+  let timeframe = ctx::choose(2) == 0;
+  let status: Status = if timeframe {
+    match RevocationTimeframeStatus::new(
+      Some(identity_core::common::Timestamp::from_unix(1_700_000_000).expect("in range")),
+      identity_core::common::Duration::minutes(10),
+      service_url.clone().into(),
+      index,
+    ) {
+      Ok(s) => s.into(),
+      Err(_) => return,
+    }
+  } else {
+    RevocationBitmapStatus::new(service_url.clone(), index).into()
+  };
+  let Ok(subject) = Subject::from_json_value(serde_json::json!({"id": "did:sim:holder", "name": "Alice"})) else { return };
+  let Ok(issuer_url) = identity_core::common::Url::parse(doc.id().as_str()) else { return };
+  let Ok(credential): Result<Credential, _> = CredentialBuilder::default()
+    .id(identity_core::common::Url::parse("https://sim.example/credentials/jpt").expect("static url"))
+    .issuer(issuer_url)
+    .type_("SimCredential")
+    .subject(subject)
+    .status(status)
+    .issuance_date(identity_core::common::Timestamp::from_unix(1_600_000_000).expect("in range"))
+    .build()
+  else {
+    return;
+  };
+  let Ok(jpt) = block_on(doc.create_credential_jpt(&credential, &storage, &fragment, &JwpCredentialOptions::default(), None)) else {
+    ctx::stat("observation.jpt_twin_not_issued");
+    return;
+  };
+  ctx::stat("probe.jpt_twin_validated");
+  ctx::sched("jpt", member as u64 * 2 + timeframe as u64);
+  let res = ctx::catch(|| {
+    JptCredentialValidator::validate::<_, Object>(
+      &jpt,
+      &doc,
+      &JptCredentialValidationOptions::default().status_check(StatusCheck::Strict),
+      FailFast::FirstError,
+    )
+    .map(|_| ())
+    .map_err(|e| {
+      e.validation_errors
+        .iter()
+        .map(|x| {
+          let name: &'static str = x.into();
+          name
+        })
+        .collect::<Vec<&'static str>>()
+    })
+  });
+  let kind = if timeframe { "RevocationTimeframe2024" } else { "RevocationBitmap2022" };
+  match (res, member) {
+    (Err(p), _) => ctx::violation("C06", "C06.validation_reports_exactly_members", "jpt-validation/panic", format!("JPT validation panicked: {p}")),
+    (Ok(Ok(())), true) => ctx::violation(
+      "C06",
+      "C06.validation_reports_exactly_members",
+      "jpt-validation/revoked-but-accepted",
+      format!("index {index} is revoked in {sid}; the JPT credential with a {kind} status entry was accepted under StatusCheck::Strict"),
+    ),
+    (Ok(Ok(())), false) => ctx::stat("probe.jpt_twin_not_revoked"),
+    (Ok(Err(names)), true) => {
+      if names.contains(&"Revoked") {
+        ctx::stat("probe.jpt_twin_revoked");
+      } else {
+        ctx::violation(
+          "C06",
+          "C06.validation_reports_exactly_members",
+          format!("jpt-validation/member-but-other-error/{}", names.join("+")),
+          format!("index {index} is revoked but JPT validation ({kind}) reports {names:?} instead of Revoked"),
+        );
+      }
+    }
+    (Ok(Err(names)), false) => ctx::violation(
+      "C06",
+      "C06.validation_reports_exactly_members",
+      format!("jpt-validation/not-member-but-rejected/{}", names.join("+")),
+      format!("index {index} is not revoked but JPT validation ({kind}) failed with {names:?}"),
+    ),
   }
 }
 
